@@ -279,7 +279,8 @@ def ob_unplannable(cls, why):
 
 
 def obligations(tier):
-    to = 150 if tier == 'quick' else 900       # z3 time limit per query; the slowest quick obligation takes 30 s alone and up to 125 s with 16 solvers running
+    to = 330 if tier == 'quick' else 900       # z3 time limit per query; the slowest quick obligation takes 30 s alone, up to 125 s with 16 solvers running, and
+    #                                            was seen to exceed 150 s on a machine shared with other work; after a time-out the fall-back solvers get 40 s only
     obs = []
     for cls in P_COMM:
         try:
